@@ -441,7 +441,7 @@ func controlsC17(cp *Prog, r *Report) {
 	expectControl(r, "R-GLOBAL", func(cr *Report) { ruleGlobalIn(cp, cr, "shared") },
 		"shared.SumBad/shared.scratch", "shared.CachedBad/shared.table", "shared.TweakBad/shared.lookup")
 	expectControl(r, "R-FONT", func(cr *Report) { ruleFont(cp, cr, fontCfg{pkg: "shared", typ: "Font"}) },
-		"(*shared.Face).AdvanceMemoBad", "shared.side", "(*shared.Font).lazy")
+		"(*shared.Face).AdvanceMemoBad", "shared.side", "(*shared.Font).lazy", "shared.resolveBad")
 	expectControl(r, "R-NOUNSAFE", func(cr *Report) {
 		ruleNoUnsafe(cp, cr, map[string]bool{cp.pkgPath("reflw"): true, cp.pkgPath("reflr"): true})
 	}, "imports/reflw")
